@@ -68,6 +68,20 @@ PROPS = {
         explanation="Theorems (all histories of constructor calls with arbitrary option lists, interleaved with calls): the configuration of the i-th instance equals the library defaults with its own constructor options applied (induction over the history with a heap invariant: instance objects are distinct from each other and from the package-level defaults object); the defaults object is never written; a constructor without options yields the defaults; a per-call option set changes no instance (removing the call from any history leaves every configuration unchanged). Tie: random writer and reader histories against fake drivers that record the options actually used; every live instance's option fields read after every step.",
         assumptions=["modelled: pkg/writer New + options + WriteStream(WithOptions), pkg/reader New + options + ParseStreamWithOptions, as a heap of option objects (Model/Opts.v)", "the fall-back of a per-call option set (format -> instance, render options -> library defaults, format options -> none) is modelled as coded and validated by correspondence; the property does not fix it"],
     ),
+    "C19": dict(
+        props_v="Props/C19.v",
+        corr_v=["Corr/CheckC19.v"],
+        n_quick=70, n_thorough=1500,
+        explanation="Theorems (all documents, all identifier strings, all directory states, both no-clobber settings; premises: decode(encode d)=d, entry naming injective): store-then-retrieve, key isolation, no-clobber preserves, missing directory created then usable, Retrieve never panics/exits and never returns a document other than the one asked for (absent, unreadable, undecodable, empty or foreign entries give an error), id-less/nil documents are rejected, only hashed names are created, and any sequence of store/retrieve calls refines a map from identifiers to documents (induction). Tie: random histories with hostile identifiers and injected faults, every call in a child process (exit status observable), a third of them as the unprivileged user nobody; oracle: store-then-retrieve, right-document, confinement walk of the scratch tree.",
+        assumptions=["modelled: pkg/storage/filesystem.go over an abstract directory state (Model/Store.v); protobuf Marshal/Unmarshal, SHA-256 hex naming and the kernel's permission checks are parameters with stated hypotheses", "real kernel file-system semantics are exercised only by the correspondence"],
+    ),
+    "C20": dict(
+        props_v="Props/C20.v",
+        corr_v=["Corr/CheckC20.v"],
+        n_quick=6, n_thorough=60,
+        explanation="Theorem (every crash prefix and torn write of the modelled call sequence create-temp/write/chmod/fsync/close/rename, first store and overwrite, any un-synced prefix surviving): a later Retrieve of that identifier returns what it returned before the store or the complete new document, and other identifiers are unaffected; listing-level version free of codec assumptions; the in-place write of the unrepaired code is refuted in the same model. Tie (partial: real kernels may reorder more than the model): the real Store's syscalls observed by strace equal the model's call sequence; the Go-enumerated post-crash listings equal Coq's crash_states as sets and each is materialised and read by the real Retrieve in a fresh process; the real process is SIGKILLed at every file-system call index (strace fault injection).",
+        assumptions=["crash model: sequential prefixes of the call sequence, torn writes, volatile un-fsynced data (any prefix), atomic rename; reordering beyond that is outside the model", "protobuf codec and entry naming as in C19"],
+    ),
 }
 
 NOT_APPLICABLE = {}
